@@ -2300,6 +2300,41 @@ def _nodes_insertions(cl: _Closure) -> list[tuple[_Frame, ast.AST, str, ast.AST 
     return out
 
 
+def _node_id_inputs(ctx: Ctx) -> set[str]:
+    """the attributes of a Node its identifier is computed from (read from the `id` property: calc_node_id(self.address, self.mid))"""
+    ci = ctx.repo.try_cls("Node", RT)
+    getter = ci.lookup("id") if ci is not None else None
+    if getter is None:
+        return {"address"}
+    out = {n.attr for n in ast.walk(getter.node) if isinstance(n, ast.Attribute) and isinstance(n.value, ast.Name) and n.value.id == "self"}
+    out = {a for a in out if not a.startswith("_")}
+    if "mid" in out:
+        out |= {"key", "public_key"}
+    return (out | {"address"}) - {"last_changed", "bucket"}
+
+
+def _entry_selected_by_id(fr: _Frame, leaf: ast.AST, node: str) -> bool | None:
+    """leaf picks a stored entry out of the node table by searching: next(<x for x in ...nodes.values() if COND>[, None]).
+    True when COND requires x.id == node.id (the entry filed under that id); False when it draws from the node table under
+    another condition (another entry of the bucket); None otherwise."""
+    leaf = strip_cast(leaf)
+    if not (isinstance(leaf, ast.Call) and chain(leaf.func) == "next" and leaf.args):
+        return None
+    g = strip_cast(leaf.args[0])
+    if isinstance(g, ast.Call) and chain(g.func) == "iter" and len(g.args) == 1:
+        g = strip_cast(g.args[0])
+    if not (isinstance(g, (ast.GeneratorExp, ast.ListComp)) and len(g.generators) == 1 and isinstance(g.generators[0].target, ast.Name)
+            and isinstance(g.elt, ast.Name) and g.elt.id == g.generators[0].target.id):
+        return None
+    x = g.elt.id
+    fs = _comp_filter_facts(g, {x})
+    want = {f"{x}.id", norm(fr.tr(ast.parse(f"{node}.id", mode="eval").body))}
+    if any(f.op == "eq" and f.pos and f.right is not None and {norm(f.left), norm(fr.tr(f.right))} == want or
+           f.op == "eq" and f.pos and f.right is not None and {norm(fr.tr(f.left)), norm(f.right)} == want for f in fs):
+        return True
+    return False if _raw_nodes_source(fr.fi, g.generators[0].iter) else None
+
+
 def rule_bucket(ctx: Ctx) -> None:
     repo = ctx.repo
     add = _anchor_method(ctx, "Bucket", "add")
@@ -2322,6 +2357,51 @@ def rule_bucket(ctx: Ctx) -> None:
         for t, _v in _assign_targets(s):
             if isinstance(t, ast.Attribute) and t.attr not in ("last_changed", "bucket", "address"):
                 ctx.check(False, "bucket-insert", fr.fi, s, "add only sets address/last_changed/bucket", "Bucket.add rewrites an unexpected attribute")
+    # Node.id is computed from (address, mid): the update branch may give the incoming node's address only to the entry that is
+    # filed under the incoming node's id - then the stored object still has the id it is filed under (and its bucket owns it).
+    # Rewriting the address of an entry found any other way (same peer, same mid ...) changes its identifier under its key.
+    id_inputs = _node_id_inputs(ctx)
+    for fr, s in cl.nodes:
+        for t, v in _assign_targets(s):
+            if not (isinstance(t, ast.Attribute) and t.attr in id_inputs):
+                continue
+            obj = fr.tr(t.value)
+            if norm(obj) == node:
+                continue                                                  # the incoming node itself is not a stored entry yet
+            def keyed(e: ast.AST, fr=fr) -> bool:
+                """self.nodes[node.id] / self.nodes.get(node.id[, D]) with D not an entry of a node table (a constant / module-level sentinel)"""
+                e = strip_cast(e)
+                if isinstance(e, ast.Subscript):
+                    return norm(e) == f"self.nodes[{node}.id]"
+                if isinstance(e, ast.Call) and norm(e.func) == "self.nodes.get" and not e.keywords and 1 <= len(e.args) <= 2 and norm(e.args[0]) == f"{node}.id":
+                    d = strip_cast(e.args[1]) if len(e.args) == 2 else None
+                    return d is None or isinstance(d, ast.Constant) or (isinstance(d, ast.Name) and d.id not in _bound_locals(fr.root().fi.node)
+                                                                        and d.id not in fr.root().fi.params() and "@" not in d.id)
+                return False
+            fs = cl.facts(fr, s)
+            same_id = any(f.op == "eq" and f.pos and f.right is not None and {norm(f.left), norm(f.right)} == {f"{norm(t.value)}.id", f"{node}.id"} for f in fs) or \
+                any(f.op == "eq" and f.pos and f.right is not None and {norm(f.left), norm(f.right)} == {f"{norm(obj)}.id", f"{node}.id"} for f in fs)
+            states: list[bool | None] = []
+            if keyed(obj) or same_id:
+                states.append(True)
+            else:
+                leaves = _value_leaves(fr.fi, t.value, s) if fr.parent is None else None
+                for leaf, _site in (leaves or [(None, None)]):
+                    if leaf is None:
+                        states.append(None)
+                    elif const_value(leaf) is None:
+                        continue                                          # no entry: the store fails / is guarded
+                    elif keyed(fr.tr(leaf)):
+                        states.append(True)
+                    else:
+                        states.append(_entry_selected_by_id(fr, leaf, node))
+            ok_value = v is not None and fr.ntr(v) == f"{node}.{t.attr}"
+            state = False if any(x is False for x in states) else (True if states and all(x is True for x in states) and ok_value else None)
+            _verdict(ctx, state, "bucket-insert", fr.fi, s, f"only the entry filed under {node}.id receives {node}.{t.attr}",
+                     f"Bucket.add rewrites `{t.attr}` (an input of Node.id) of a stored entry that is not the one filed under {node}.id: the stored node changes its "
+                     "identifier while it stays filed under the old key, possibly in a bucket that does not own the new identifier",
+                     unknown=f"which stored entry receives a new `{t.attr}` (an input of Node.id) in Bucket.add is not recognised as self.nodes[{node}.id]")
+
     # nobody else fills a bucket: the ownership and capacity guards live in Bucket.add only
     rt_module = repo.module(RT)
 
@@ -3088,6 +3168,10 @@ def rule_split(ctx: Ctx) -> None:
 
 def _empty_collection(e: ast.AST) -> bool:
     e = strip_cast(e)
+    if isinstance(e, ast.Dict) and not e.keys:
+        return True
+    if isinstance(e, ast.Call) and chain(e.func) in ("dict", "OrderedDict", "collections.OrderedDict") and not e.args and not e.keywords:
+        return True
     if isinstance(e, ast.Call) and isinstance(e.func, ast.Name) and e.func.id in ("set", "list", "frozenset", "tuple") and not e.keywords:
         return not e.args or (len(e.args) == 1 and isinstance(e.args[0], (ast.List, ast.Tuple)) and not e.args[0].elts)
     return isinstance(e, (ast.List, ast.Tuple)) and not e.elts
@@ -3117,6 +3201,32 @@ def _raw_nodes_source(fi: FuncInfo, e: ast.AST, var: str | None = None, site: as
                     if var in _target_names(g.target) and _raw_nodes_source(fi, g.iter, None, None, depth - 1):
                         return True
     return False
+
+
+def _pairs_as_values(e: ast.AST) -> ast.AST | None:
+    """A mapping written as a dict comprehension `{K: n for n in ...}` or as an iterable of (K, n) pairs (what dict(),
+    dict.update() accept: a comprehension whose element is a 2-tuple, map(lambda n: (K, n), src)) whose value is the loop
+    variable: the generator of its values - the nodes the mapping holds, identified by K - with the same clauses/filters."""
+    gens, val = None, None
+    if isinstance(e, ast.DictComp):
+        gens, val = e.generators, e.value
+    elif isinstance(e, _COMPS) and isinstance(e.elt, ast.Tuple) and len(e.elt.elts) == 2 and not any(isinstance(x, ast.Starred) for x in e.elt.elts):
+        gens, val = e.generators, e.elt.elts[1]
+    elif isinstance(e, ast.Call) and chain(e.func) == "map" and len(e.args) == 2 and not e.keywords and isinstance(strip_cast(e.args[0]), ast.Lambda):
+        lam = strip_cast(e.args[0])
+        a = lam.args
+        body = strip_cast(lam.body)
+        if len(a.args) == 1 and not (a.posonlyargs or a.kwonlyargs or a.vararg or a.kwarg) and isinstance(body, ast.Tuple) and len(body.elts) == 2 \
+                and isinstance(body.elts[1], ast.Name) and body.elts[1].id == a.args[0].arg and not isinstance(e.args[1], ast.Starred):
+            tgt = ast.Name(id=a.args[0].arg, ctx=ast.Store())
+            gens, val = [ast.comprehension(target=tgt, iter=e.args[1], ifs=[], is_async=0)], ast.Name(id=a.args[0].arg, ctx=ast.Load())
+    if gens is None or not isinstance(val, ast.Name):
+        return None
+    g_ = ast.GeneratorExp(elt=val, generators=gens)
+    ast.copy_location(g_, e)
+    ast.fix_missing_locations(g_)
+    g_._parent = getattr(e, "_parent", None)  # type: ignore[attr-defined]
+    return g_
 
 
 def _combine_all(parts) -> bool | None:
@@ -3166,8 +3276,20 @@ def _live_state(ctx: Ctx, fi: FuncInfo, e: ast.AST, depth: int = 4) -> bool | No
             parts.append(_live_state(ctx, fi, v, depth - 1))
         # a local collection that is also filled through its methods: every element that goes in is live
         for c in walk_no_nested(fi.node):
+            if isinstance(c, (ast.Assign, ast.AnnAssign)) and c.value is not None:
+                # name[K] = x: the mapping receives x (identified by K)
+                for t in (c.targets if isinstance(c, ast.Assign) else [c.target]):
+                    if isinstance(t, ast.Subscript) and isinstance(t.value, ast.Name) and t.value.id == e.id:
+                        if isinstance(c.value, ast.Name) and not isinstance(t.slice, ast.Slice):
+                            fs = _local_facts(ctx, fi, c)
+                            parts.append(True if any(_excludes_bad(ctx, f, c.value.id) for f in fs) else (False if _raw_nodes_source(fi, None, c.value.id, c) else None))
+                        else:
+                            return None
             if isinstance(c, ast.Call) and isinstance(c.func, ast.Attribute) and isinstance(c.func.value, ast.Name) and c.func.value.id == e.id and c.func.attr in _MUTATORS:
-                if c.func.attr in ("add", "append") and len(c.args) == 1 and isinstance(c.args[0], ast.Name):
+                if c.func.attr == "setdefault" and len(c.args) == 2 and not c.keywords and isinstance(c.args[1], ast.Name):
+                    fs = _local_facts(ctx, fi, c)
+                    parts.append(True if any(_excludes_bad(ctx, f, c.args[1].id) for f in fs) else (False if _raw_nodes_source(fi, None, c.args[1].id, c) else None))
+                elif c.func.attr in ("add", "append") and len(c.args) == 1 and isinstance(c.args[0], ast.Name):
                     fs = _local_facts(ctx, fi, c)
                     parts.append(True if any(_excludes_bad(ctx, f, c.args[0].id) for f in fs) else (False if _raw_nodes_source(fi, None, c.args[0].id, c) else None))
                 elif c.func.attr in ("update", "extend") and not c.keywords:
@@ -3191,12 +3313,14 @@ def _live_state(ctx: Ctx, fi: FuncInfo, e: ast.AST, depth: int = 4) -> bool | No
     if isinstance(e, ast.Call) and isinstance(e.func, ast.Attribute) and e.func.attr in ("values", "items", "keys") and not e.args \
             and isinstance(strip_cast(e.func.value), ast.Attribute) and strip_cast(e.func.value).attr == "nodes":
         return False                                                      # the whole node table of a bucket
-    if isinstance(e, ast.DictComp) and isinstance(e.value, ast.Name):
-        # {key: node for node in ... if ...}: the nodes are the values of the mapping (a collection of nodes identified by the key)
-        g_ = ast.GeneratorExp(elt=e.value, generators=e.generators)
-        ast.copy_location(g_, e)
-        g_._parent = getattr(e, "_parent", None)
-        e = g_
+    if isinstance(e, ast.Call) and chain(e.func) in ("dict", "collections.OrderedDict", "OrderedDict") and len(e.args) == 1 and not e.keywords \
+            and not isinstance(e.args[0], ast.Starred):
+        return _live_state(ctx, fi, e.args[0], depth)                     # dict(<mapping / pairs>): the same values
+    if isinstance(e, ast.Dict) and e.keys and all(k is None for k in e.keys):
+        return _combine_all(_live_state(ctx, fi, v, depth - 1) for v in e.values)   # {**a, **b}: the values of all of them
+    pv = _pairs_as_values(e)
+    if pv is not None:
+        e = pv
     if isinstance(e, _COMPS):
         if not isinstance(e.elt, ast.Name) or any(g.is_async for g in e.generators):
             return None
@@ -3289,6 +3413,279 @@ def _live_state(ctx: Ctx, fi: FuncInfo, e: ast.AST, depth: int = 4) -> bool | No
 
 def _live_collection(ctx: Ctx, fi: FuncInfo, e: ast.AST, depth: int = 4) -> bool:
     return _live_state(ctx, fi, e, depth) is True
+
+
+def _node_equality_by_key(ctx: Ctx) -> bool | None:
+    """How two Node objects compare in a set / as dict keys, read from the source.  True: by public key only (Node has no
+    __eq__/__hash__ of its own that looks at its id or address and inherits Peer's, which compare public_key / mid): two
+    routing-table entries of one key seen from two networks are ONE element.  False: by node id / address or by object
+    identity (a set of nodes then tells nodes apart at least as finely as the table does).  None: not recognised."""
+    ci = ctx.repo.try_cls("Node", RT)
+    if ci is None:
+        return None
+    eq, hs = ci.lookup("__eq__"), ci.lookup("__hash__")
+    if eq is None and hs is None:
+        return False
+    if eq is None or hs is None:
+        return None
+    used = {n.attr for n in ast.walk(eq.node) if isinstance(n, ast.Attribute)}
+    if used & {"id", "address"}:
+        return False
+    if used & {"public_key", "mid", "key"}:
+        return True
+    return None
+
+
+def _candidate_identity(ctx: Ctx, cl: _Closure, coll: str) -> tuple[bool | None, _Frame | None, ast.AST | None, str]:
+    """The candidate collection of closest_nodes identifies nodes the way the table does - by Node.id.
+    It is a dict keyed by `<node>.id`, or a set of ids: True.  It is a set / frozenset of Node objects (created as one, or
+    fed through an intermediate set of nodes) while Node equality is by public key, or a dict keyed by the node's key / mid:
+    False, at the statement that creates it.  A list / tuple / deque (no de-duplication although the walk visits the
+    buckets of an inner level again on every outer level), or anything not recognised: None."""
+    ctx_ = ctx
+    by_key = _node_equality_by_key(ctx)
+    kinds: list[tuple[str | None, _Frame, ast.AST]] = []
+    elems: list[tuple[str | None, _Frame, ast.AST]] = []                  # "id" | "node" | "key" | None per insertion
+
+    def node_iter(fr: _Frame, it: ast.AST) -> bool:
+        return _raw_nodes_source(fr.fi, it) or _live_state(ctx_, fr.fi, it) is not None
+
+    def name_is_node(fr: _Frame, x: ast.Name, site: ast.AST, gens=()) -> bool:
+        for g in gens:
+            if x.id in _target_names(g.target):
+                return node_iter(fr, g.iter)
+        for a in ancestors(site):
+            if isinstance(a, ast.For) and x.id in _target_names(a.target):
+                return node_iter(fr, a.iter)
+            if isinstance(a, (*_COMPS, ast.DictComp)):
+                for g in a.generators:
+                    if x.id in _target_names(g.target):
+                        return node_iter(fr, g.iter)
+        return _raw_nodes_source(fr.fi, None, x.id, site)
+
+    def elem_kind(fr: _Frame, x: ast.AST, site: ast.AST, gens=()) -> str | None:
+        x = strip_cast(x)
+        if isinstance(x, ast.Attribute) and x.attr == "id":
+            return "id"
+        if isinstance(x, ast.Name) and name_is_node(fr, x, site, gens):
+            return "node"
+        return None
+
+    def pair_kind(fr: _Frame, k: ast.AST, v: ast.AST, site: ast.AST, gens=()) -> str | None:
+        k, v = strip_cast(k), strip_cast(v)
+        if isinstance(k, ast.Name) and isinstance(v, ast.Name) and k.id != v.id:
+            # K, V bound together by a loop / clause over `<bucket>.nodes.items()`: the key a bucket files the node under, which
+            # is the node's id (rule bucket-insert: the only store is nodes[node.id] = node)
+            binders = [g for g in gens] + [a for a in ancestors(site) if isinstance(a, ast.For)] + \
+                [g for a in ancestors(site) if isinstance(a, (*_COMPS, ast.DictComp)) for g in a.generators]
+            for g in binders:
+                tg_ = g.target
+                it = _strip_snapshot(strip_cast(g.iter))
+                if isinstance(tg_, ast.Tuple) and len(tg_.elts) == 2 and all(isinstance(x, ast.Name) for x in tg_.elts) and [x.id for x in tg_.elts] == [k.id, v.id] \
+                        and isinstance(it, ast.Call) and isinstance(it.func, ast.Attribute) and it.func.attr == "items" and not it.args \
+                        and isinstance(strip_cast(it.func.value), ast.Attribute) and strip_cast(it.func.value).attr == "nodes":
+                    return "id"
+        if isinstance(k, ast.Name):
+            k = strip_cast(resolve(fr.fi, k))                             # nid = node.id ... coll[nid] = node
+        if isinstance(k, ast.Attribute) and k.attr == "id" and norm(k.value) == norm(v):
+            return "id"
+        if isinstance(k, ast.Attribute) and k.attr in ("mid", "public_key") and norm(k.value) == norm(v):
+            return "key"
+        if isinstance(k, ast.Call) and isinstance(k.func, ast.Attribute) and k.func.attr == "key_to_bin" and norm(v) + "." in norm(k):
+            return "key"
+        if isinstance(k, ast.Name) and norm(k) == norm(v) and name_is_node(fr, k, site, gens):
+            return "node"
+        return None
+
+    def node_set(fr: _Frame, e: ast.AST, site: ast.AST, depth: int = 3) -> bool:
+        """e is (through single-assignment locals / list()/sorted() wraps) a set or frozenset of Node objects"""
+        e = strip_cast(resolve(fr.fi, strip_cast(e)))
+        while isinstance(e, ast.Call) and chain(e.func) in ("list", "tuple", "iter", "sorted", "reversed") and e.args and not isinstance(e.args[0], ast.Starred):
+            e = strip_cast(resolve(fr.fi, strip_cast(e.args[0])))
+        if isinstance(e, ast.SetComp):
+            return elem_kind(fr, e.elt, site, e.generators) == "node"
+        if isinstance(e, ast.Call) and chain(e.func) in ("set", "frozenset") and len(e.args) == 1 and not isinstance(e.args[0], ast.Starred):
+            a = strip_cast(resolve(fr.fi, strip_cast(e.args[0])))
+            if isinstance(a, _COMPS):
+                return elem_kind(fr, a.elt, site, a.generators) == "node"
+            return node_iter(fr, a)
+        if isinstance(e, ast.BinOp) and isinstance(e.op, (ast.BitOr, ast.BitAnd, ast.Sub)) and depth > 0:
+            return node_set(fr, e.left, site, depth - 1) or (isinstance(e.op, ast.BitOr) and node_set(fr, e.right, site, depth - 1))
+        if isinstance(e, ast.Call) and isinstance(e.func, ast.Attribute) and e.func.attr in ("union", "intersection", "difference", "copy") and depth > 0:
+            return node_set(fr, e.func.value, site, depth - 1)
+        return False
+
+    def through_node_set(fr: _Frame, e: ast.AST, site: ast.AST) -> bool:
+        """the nodes of a comprehension / filter / mapping source are drawn from an intermediate set of Node objects"""
+        e = strip_cast(resolve(fr.fi, strip_cast(e)))
+        if isinstance(e, (*_COMPS, ast.DictComp)):
+            return any(node_set(fr, g.iter, site) or through_node_set(fr, g.iter, site) for g in e.generators)
+        if isinstance(e, ast.Call) and chain(e.func) in ("filter", "map", "itertools.filterfalse", "filterfalse") and len(e.args) == 2:
+            return node_set(fr, e.args[1], site) or through_node_set(fr, e.args[1], site)
+        if isinstance(e, ast.Call) and chain(e.func) in ("dict", "list", "tuple", "sorted") and len(e.args) >= 1 and not isinstance(e.args[0], ast.Starred):
+            return node_set(fr, e.args[0], site) or through_node_set(fr, e.args[0], site)
+        return False
+
+    budget = [64]
+
+    def depth_ok() -> bool:
+        budget[0] -= 1
+        return budget[0] > 0
+
+    def feed(fr: _Frame, kind: str | None, x: ast.AST, site: ast.AST) -> None:
+        """the iterable / mapping x is merged into the collection (update, |=, constructor argument)"""
+        x = strip_cast(resolve(fr.fi, strip_cast(x)))
+        if _empty_collection(x):
+            return
+        if node_set(fr, x, site) or through_node_set(fr, x, site):
+            if kind != "set":
+                elems.append(("nodeset", fr, site))                       # an intermediate set of nodes has collapsed them already
+        if isinstance(x, ast.BinOp) and isinstance(x.op, ast.BitOr):
+            feed(fr, kind, x.left, site)
+            feed(fr, kind, x.right, site)
+            return
+        if isinstance(x, ast.Name) and norm(fr.tr(x, expand=False)) == coll:
+            return
+        if isinstance(x, ast.Call) and not isinstance(x.func, ast.Attribute) or (isinstance(x, ast.Call) and isinstance(x.func, ast.Attribute)
+                                                                                 and isinstance(x.func.value, ast.Name) and x.func.value.id in ("self", "cls")):
+            # the result of a private helper that is part of the call tree: what it returns, in its own activation
+            child = next((f for f in cl.frames if f.site is x), None)
+            if child is not None and not _is_generator(child.fi.node):
+                rets = [r for r in walk_no_nested(child.fi.node) if isinstance(r, ast.Return) and r.value is not None]
+                if rets and depth_ok():
+                    for r in rets:
+                        feed(child, kind, r.value, r)
+                    return
+        if kind == "dict":
+            if isinstance(x, ast.Call) and chain(x.func) in ("dict", "OrderedDict", "collections.OrderedDict") and len(x.args) == 1 and not x.keywords:
+                return feed(fr, kind, x.args[0], site)
+            if isinstance(x, ast.Dict) and all(k is None for k in x.keys):
+                for v in x.values:
+                    feed(fr, kind, v, site)
+                return
+            if isinstance(x, ast.DictComp):
+                elems.append((pair_kind(fr, x.key, x.value, site, x.generators), fr, site))
+            elif isinstance(x, _COMPS) and isinstance(x.elt, ast.Tuple) and len(x.elt.elts) == 2:
+                elems.append((pair_kind(fr, x.elt.elts[0], x.elt.elts[1], site, x.generators), fr, site))
+            elif isinstance(x, ast.Call) and chain(x.func) == "map" and len(x.args) == 2 and isinstance(strip_cast(x.args[0]), ast.Lambda) \
+                    and isinstance(strip_cast(x.args[0]).body, ast.Tuple) and len(strip_cast(x.args[0]).body.elts) == 2 and len(strip_cast(x.args[0]).args.args) == 1:
+                lam = strip_cast(x.args[0])
+                k_, v_ = lam.body.elts
+                ok = isinstance(v_, ast.Name) and v_.id == lam.args.args[0].arg and isinstance(k_, ast.Attribute) and k_.attr == "id" and norm(k_.value) == v_.id
+                elems.append(("id" if ok else None, fr, site))
+            else:
+                elems.append((None, fr, site))
+            return
+        if kind == "set":
+            if isinstance(x, _COMPS):
+                elems.append((elem_kind(fr, x.elt, site, x.generators), fr, site))
+            elif isinstance(x, (ast.Set, ast.List, ast.Tuple)):
+                for y in x.elts:
+                    elems.append((elem_kind(fr, y, site), fr, site))
+            elif isinstance(x, ast.Call) and chain(x.func) in ("set", "frozenset", "list", "tuple") and len(x.args) == 1 and not isinstance(x.args[0], ast.Starred):
+                feed(fr, kind, x.args[0], site)
+            else:
+                elems.append(("node" if node_iter(fr, x) else None, fr, site))
+            return
+
+    def kind_of(fr: _Frame, v: ast.AST, site: ast.AST) -> str | None:
+        v = strip_cast(v)
+        c = chain(v.func) if isinstance(v, ast.Call) else None
+        if isinstance(v, (ast.Dict, ast.DictComp)) or c in ("dict", "OrderedDict", "collections.OrderedDict", "defaultdict", "collections.defaultdict"):
+            return "dict"
+        if isinstance(v, (ast.Set, ast.SetComp)) or c in ("set", "frozenset"):
+            return "set"
+        if isinstance(v, (ast.List, ast.ListComp, ast.Tuple)) or c in ("list", "tuple", "deque", "collections.deque"):
+            return "list"
+        return None
+
+    def is_coll(fr: _Frame, e: ast.AST) -> bool:
+        return isinstance(e, ast.Name) and norm(fr.tr(e, expand=False)) == coll
+
+    created: list[tuple[_Frame, ast.AST, ast.AST]] = []
+    for fr, n in cl.nodes:
+        if isinstance(n, (ast.Assign, ast.AnnAssign)) and n.value is not None:
+            tg = n.targets if isinstance(n, ast.Assign) else [n.target]
+            if any(is_coll(fr, t) for t in tg):
+                if fr.parent is not None and not any(isinstance(t, ast.Name) and t.id in fr.alias for t in tg):
+                    continue
+                if fr.parent is None and isinstance(n.value, ast.Call) and any(f.site is n.value and f.alias for f in cl.frames):
+                    continue
+                v = strip_cast(n.value)
+                if any(isinstance(x, ast.Name) and is_coll(fr, x) for x in ast.walk(v)) and kind_of(fr, v, n) is None:
+                    created.append((fr, n, None))                         # coll = coll | X / coll.union(X): merged below, same kind
+                    continue
+                kinds.append((kind_of(fr, v, n), fr, n))
+                created.append((fr, n, v))
+    known = {k for k, _f, _n in kinds}
+    kind = next(iter(known)) if len(known) == 1 else None
+    first = kinds[0] if kinds else None
+    if kind is None:
+        return None, first[1] if first else None, first[2] if first else None, f"how the candidate collection `{coll}` is created (dict keyed by node id / set / list) is not recognised"
+    if kind == "list":
+        return None, first[1], first[2], (f"the candidate collection `{coll}` is a sequence without de-duplication while every level of the walk visits the buckets of "
+                                          "the level before again: that no node is returned twice is not decided")
+    for fr, n, v in created:
+        if v is None:
+            val = strip_cast(n.value)
+            if isinstance(val, ast.BinOp):
+                feed(fr, kind, val, n)
+            elif isinstance(val, ast.Call) and isinstance(val.func, ast.Attribute) and val.func.attr == "union":
+                for a in val.args:
+                    feed(fr, kind, a.value if isinstance(a, ast.Starred) else a, n)
+            else:
+                elems.append((None, fr, n))
+        elif isinstance(v, ast.Call) and len(v.args) == 1 and not isinstance(v.args[0], ast.Starred) and chain(v.func) in ("dict", "set", "frozenset", "OrderedDict", "collections.OrderedDict"):
+            feed(fr, kind, v.args[0], n)
+        elif isinstance(v, (ast.DictComp, ast.SetComp)):
+            feed(fr, kind, v, n)
+        elif isinstance(v, ast.Set):
+            feed(fr, kind, v, n)
+        elif isinstance(v, ast.Dict) and v.keys:
+            for k_, v_ in zip(v.keys, v.values):
+                if k_ is None:
+                    feed(fr, kind, v_, n)
+                else:
+                    elems.append((pair_kind(fr, k_, v_, n), fr, n))
+        elif not _empty_collection(v) and not (isinstance(v, ast.Call) and chain(v.func) in ("defaultdict", "collections.defaultdict") and len(v.args) <= 1):
+            elems.append((None, fr, n))
+    for fr, n in cl.nodes:
+        if isinstance(n, ast.AugAssign) and is_coll(fr, n.target):
+            if isinstance(n.op, (ast.BitOr, ast.Add)):
+                feed(fr, kind, n.value, n)
+        elif isinstance(n, (ast.Assign, ast.AnnAssign)) and n.value is not None:
+            for t in (n.targets if isinstance(n, ast.Assign) else [n.target]):
+                if isinstance(t, ast.Subscript) and is_coll(fr, t.value) and kind == "dict":
+                    elems.append((pair_kind(fr, t.slice, n.value, n), fr, n))
+        elif isinstance(n, ast.Call) and isinstance(n.func, ast.Attribute) and is_coll(fr, n.func.value):
+            m = n.func.attr
+            if m == "add" and kind == "set" and len(n.args) == 1:
+                elems.append((elem_kind(fr, n.args[0], n), fr, n))
+            elif m == "setdefault" and kind == "dict" and len(n.args) == 2:
+                elems.append((pair_kind(fr, n.args[0], n.args[1], n), fr, n))
+            elif m in ("update", "union_update", "__ior__") and not n.keywords:
+                for a in n.args:
+                    feed(fr, kind, a.value if isinstance(a, ast.Starred) else a, n)
+            elif m in ("add", "setdefault", "update", "append", "extend", "insert", "symmetric_difference_update"):
+                elems.append((None, fr, n))
+    cfr, cst = first[1], first[2]
+    bad = [(k, f, n) for k, f, n in elems if k in ("key", "nodeset") or (k == "node" and by_key is not False)]
+    hard = [(k, f, n) for k, f, n in bad if k in ("key",) or by_key is True]
+    if hard:
+        k, f, n = hard[0]
+        if k == "node" and kind == "set":
+            return False, cfr, cst, (f"the candidate collection `{coll}` is a set of Node objects: Node inherits Peer.__eq__/__hash__ (public key only), so two live routing-table "
+                                     "entries of one key seen from two networks (two node ids) collapse into one candidate and the query does not return the k nearest live nodes")
+        return False, f, enclosing_stmt(n), ("candidates are identified by their public key here (a set of Node objects / a key-based dict key) instead of by Node.id: two live "
+                                             "entries of one key seen from two networks collapse into one candidate and the query does not return the k nearest live nodes")
+    if bad:
+        return None, bad[0][1], bad[0][2], "a set of Node objects is used for the candidates and how Node objects compare (__eq__/__hash__) is not recognised"
+    unk = [(k, f, n) for k, f, n in elems if k is None]
+    if unk:
+        return None, unk[0][1], unk[0][2], f"by what the candidate collection `{coll}` identifies an inserted node (its key / element is not `<node>.id` of the inserted node) is not recognised"
+    if not elems:
+        return None, cfr, cst, f"nothing recognisable is inserted into the candidate collection `{coll}`"
+    return True, cfr, cst, ""
 
 
 def _descending_from_len(fi: FuncInfo, it: ast.AST, name: str, stop=()) -> bool:
@@ -3604,6 +4001,8 @@ def rule_closest(ctx: Ctx) -> None:
                 return True
             if isinstance(v, ast.BinOp) and isinstance(v.op, ast.BitOr):
                 return _combine_all([union_state(v.left), union_state(v.right)])
+            if isinstance(v, ast.Dict) and v.keys and all(k_ is None for k_ in v.keys):
+                return _combine_all(union_state(x) for x in v.values)    # {**coll, **more}: the mapping and what is merged into it
             if isinstance(v, ast.Call) and isinstance(v.func, ast.Attribute) and v.func.attr == "union" and not v.keywords:
                 # coll.union(a, *sets): the receiver and every argument
                 return _combine_all([union_state(v.func.value), *[sets_of(a.value) if isinstance(a, ast.Starred) else union_state(a) for a in v.args]])
@@ -3622,7 +4021,18 @@ def rule_closest(ctx: Ctx) -> None:
             adds.append((fr, n, union_state(n.value) if isinstance(n.op, (ast.BitOr, ast.Add)) else None))
         elif isinstance(n, (ast.Assign, ast.AnnAssign)) and n.value is not None:
             tg = n.targets if isinstance(n, ast.Assign) else [n.target]
-            if any(is_coll(t) for t in tg):
+            subs = [t for t in tg if isinstance(t, ast.Subscript) and is_coll(t.value)]
+            if subs:
+                # coll[K] = x: the mapping receives x
+                x = n.value
+                fs = cl.facts(fr, n)
+                xn = norm(fr.tr(x, expand=False)) if isinstance(x, ast.Name) else None
+                if xn is not None and not isinstance(subs[0].slice, ast.Slice) and any(_excludes_bad(ctx, f, xn) for f in fs):
+                    adds.append((fr, n, True))
+                else:
+                    raw = isinstance(x, ast.Name) and not isinstance(subs[0].slice, ast.Slice) and _raw_nodes_source(fr.fi, None, x.id, n) and not _under_match(fr, n)
+                    adds.append((fr, n, False if raw else None))
+            elif any(is_coll(t) for t in tg):
                 if fr.parent is not None and not any(isinstance(t, ast.Name) and t.id in fr.alias for t in tg):
                     continue                                              # a helper rebinding its parameter: not the caller's collection
                 if _empty_collection(n.value) or (isinstance(n.value, ast.Dict) and not n.value.keys):
@@ -3633,8 +4043,8 @@ def rule_closest(ctx: Ctx) -> None:
             elif fr.parent is None and any(coll in {x.id for x in ast.walk(t) if isinstance(x, ast.Name) and isinstance(x.ctx, ast.Store)} for t in tg):
                 adds.append((fr, n, None))                                # bound through unpacking: not followed
         elif isinstance(n, ast.Call) and isinstance(n.func, ast.Attribute) and is_coll(n.func.value):
-            if n.func.attr in ("add", "append", "setdefault") and 1 <= len(n.args) <= 2:
-                x = n.args[0]
+            if n.func.attr in ("add", "append", "setdefault") and 1 <= len(n.args) <= 2 and not (n.func.attr == "setdefault" and len(n.args) == 1):
+                x = n.args[1] if n.func.attr == "setdefault" else n.args[0]   # mapping.setdefault(K, x) inserts x
                 fs = cl.facts(fr, n)
                 xn = norm(fr.tr(x, expand=False)) if isinstance(x, ast.Name) else None
                 if xn is not None and any(_excludes_bad(ctx, f, xn) for f in fs):
@@ -3649,6 +4059,12 @@ def rule_closest(ctx: Ctx) -> None:
     _verdict(ctx, state, "closest", bad[0].fi if bad else fi, enclosing_stmt(bad[1]) if bad is not None else fi.node, "candidates exclude BAD nodes",
              "closest_nodes can return nodes whose status is BAD",
              unknown=f"how the candidate collection `{coll}` is filled is not recognised" + ("" if adds else " (nothing is added to it in the call tree)"))
+
+    # the candidate collection tells nodes apart by their id, as the table does
+    if coll_known:
+        istate, ifr, ist, why = _candidate_identity(ctx, cl, coll)
+        _verdict(ctx, istate, "closest", ifr.fi if ifr is not None else fi, enclosing_stmt(ist) if ist is not None else fi.node,
+                 "candidates are identified by Node.id (dict keyed by node.id / set of ids)", why, unknown=why)
 
     # the walk: i from len(prefix) down to 0, all suffixes of prefix[:i]; break only with >= max_nodes collected
     walks = []
@@ -6009,6 +6425,18 @@ WITNESSES = [
         {"file": RT, "old": "class RoutingTable:\n",
          "new": "class _Usable:\n    def __init__(self, skip: Node | None) -> None:\n        self.skip = skip\n\n"
                 "    def __call__(self, node: Node) -> bool:\n        return self.skip is None or node.id != self.skip.id\n\n\nclass RoutingTable:\n"},
-        {"file": RT, "old": "                    nodes |= {node for node in list(bucket.nodes.values())\n                              if node.status != NODE_STATUS_BAD and (exclude_node is None\n                                                                     or node.id != exclude_node.id)}\n",
-         "new": "                    nodes.update(filter(_Usable(exclude_node), list(bucket.nodes.values())))\n"}]},
+        {"file": RT, "old": "                    nodes.update({node.id: node for node in list(bucket.nodes.values())\n                                  if node.status != NODE_STATUS_BAD and (exclude_node is None\n                                                                         or node.id != exclude_node.id)})\n",
+         "new": "                    nodes.update({n.id: n for n in filter(_Usable(exclude_node), list(bucket.nodes.values()))})\n"}]},
+    {"name": "pre-fix: closest_nodes collects its candidates in a set of Node objects (equality by public key)", "rule": "closest", "edits": [
+        {"file": RT, "old": "            nodes: dict[bytes, Node] = {}\n", "new": "            nodes: set[Node] = set()\n"},
+        {"file": RT, "old": "                    nodes.update({node.id: node for node in list(bucket.nodes.values())\n                                  if node.status != NODE_STATUS_BAD and (exclude_node is None\n                                                                         or node.id != exclude_node.id)})\n",
+         "new": "                    nodes |= {node for node in list(bucket.nodes.values())\n                              if node.status != NODE_STATUS_BAD and (exclude_node is None\n                                                                     or node.id != exclude_node.id)}\n"},
+        {"file": RT, "old": "return sorted(nodes.values(), key=", "new": "return sorted(nodes, key="}]},
+    {"name": "update path rewrites the address of an entry found by peer identity (its node id changes under its key)", "file": RT, "rule": "bucket-insert",
+     "old": "        if node.id in self.nodes:\n            curr_node = self.nodes[node.id]\n",
+     "new": "        curr_node = self.nodes.get(node.id) or next((n for n in self.nodes.values() if n.mid == node.mid), None)\n        if curr_node is not None:\n"},
+    {"name": "closest candidates keyed by the peer's mid instead of the node id", "file": RT, "rule": "closest",
+     "old": "nodes.update({node.id: node for node in list(bucket.nodes.values())", "new": "nodes.update({node.mid: node for node in list(bucket.nodes.values())"},
+    {"name": "closest candidates pass through an intermediate set of Node objects", "file": RT, "rule": "closest",
+     "old": "nodes.update({node.id: node for node in list(bucket.nodes.values())", "new": "nodes.update({node.id: node for node in set(bucket.nodes.values())"},
 ]
